@@ -15,7 +15,7 @@ import (
 
 func init() {
 	register(&Def{ID: "C17", Engine: "E1", Run: runC17,
-		Rule: "for every generated operation family (arithmetic, comparison, unary, reduction, arg-reduction, map, masking predicates, typed get/set/memset/eq, native conversions) and every kernel variant {vector-vector, vector-scalar, scalar-vector, iterator, incr, iterator-incr, reuse (recv), same-type, same-type iterator} selected through the public API, the operation is run for EVERY element type on operands whose values and exact results are representable in all participating types (small non-negative integers, results <= 100, no zero divisors); " +
+		Rule: "for every generated operation family (arithmetic and comparisons in function and method form, equality on all 18 element types, unary incl. transcendental kernels (relative tolerance 2e-6), reductions incl. the generic Reduce, arg-reductions, Apply with plain and error-returning functions in place / into a destination / incrementing, masking predicates, typed get/set/memset/eq, native, gonum and Arrow conversions) and every kernel variant {vector-vector, vector-scalar, scalar-vector, iterator, incr, iterator-incr, reuse (recv), same-type, same-type iterator} selected through the public API, the operation is run for EVERY element type on operands whose values and exact results are representable in all participating types (small non-negative integers, results <= 100, no zero divisors); " +
 			"each type's result, converted to float64, must equal the result of the one type-generic definition evaluated on the same numbers (so all types agree with each other). one case = (family, operation, variant) swept over all element types; non-trivial = >= 2 element types computed it. function coverage of the generated sources by this sweep is measured with a -cover build and reported (auxiliary)",
 		Assume: []string{"a type an operation refuses is recorded as unsupported for that (operation, variant); refusals are not failures", "complex types take part with zero imaginary parts; their results must be real"}})
 }
